@@ -208,6 +208,12 @@ def emit_module(classes: list[dict], postponed: bool, uid: int) -> tuple[str, Em
             base = ", ".join(em.node_name(b) for b in c["bases"])
         else:
             base = "ASTNode" if c["base"] is None else em.node_name(c["base"])
+        if c.get("mixin_fields") and base == "ASTNode":
+            # a plain (non-node) dataclass listed *after* the node base: its fields open the dataclass field order
+            body += f"\n@dataclass(frozen=True)\nclass Mix_{uid}:\n"
+            for f in c["mixin_fields"]:
+                body += f"    {f['name']}: {em.annotation(f['ann'])} = {f['default']}\n"
+            base = f"ASTNode, Mix_{uid}"
         body += f"\n@dataclass(frozen=True{', kw_only=True' if c.get('kw_only') else ''})\nclass {em.node_name(c['name'])}({base}):\n"
         if not c["fields"]:
             body += "    pass\n"
@@ -348,7 +354,8 @@ def st_annotation(max_depth: int = 3, allow_forward: bool = True, allow_rejected
         scalars, scalars, nodes, nodes, nodes, st.just({"k": "none"}), st.just({"k": "any"}), st.just({"k": "enum"}),
         *([st.just({"k": "enum", "late": True})] if late_enum else []),
         st.just({"k": "tuple_bare"}),
-        st.sampled_from([["a", 1], ["NodeA"], [1, 2], ["x"]]).map(lambda v: {"k": "lit", "vals": v}),
+        # ("Color" / "LateColor" are also the names of registered node classes, see ensure_shadow_nodes)
+        st.sampled_from([["a", 1], ["NodeA"], [1, 2], ["x"], ["Color"], ["a", "LateColor"]]).map(lambda v: {"k": "lit", "vals": v}),
     )
 
     def extend(inner):
